@@ -142,7 +142,8 @@ Section WalletSpecProofs.
     apply (same_set_spec A_eqb A_eqb_spec) in H2.
     apply (same_set_spec row_eqb row_eqb_spec) in H3.
     apply (same_set_spec A_eqb A_eqb_spec) in H4.
-    repeat split; try tauto; try apply H2; try apply H3; try apply H4.
+    destruct H2 as [H2 _]. destruct H3 as [H3 _]. destruct H4 as [H4 _].
+    split; [exact H1|]. split; [exact H2|]. split; [exact H3|exact H4].
   Qed.
 
   Lemma find_row_In : forall a (rows : list (A * option N)) row,
